@@ -7,16 +7,23 @@ and nested; data/ and input/ files; application dependencies per platform; refer
 these folders) is turned into a real `Experiment` (ExperimentPackage.packageFromLocation +
 Experiment.experimentFromPackage); the loop is advanced 0-3 iterations through the real
 `WorkflowGraph.instantiate_dowhile_next_iteration`; optionally options are patched through
-`WorkflowGraph.setOptionForNode`; `store_unreplicated_flowir_to_disk`; then 1-3 load+store cycles, each either
-`Experiment.experimentFromInstance(instance_dir, platform)` or `Experiment.experimentFromInstance(instance_dir)`
-(no platform named: what ewrap/etest/ememo/einspect do).
+`WorkflowGraph.setOptionForNode`; then a HISTORY of loads and further iterations on the instance directory: every load is
+`Experiment.experimentFromInstance(instance_dir, platform)`, `Experiment.experimentFromInstance(instance_dir)` (no
+platform named: what ewrap/etest/ememo/einspect do; both re-store), `Experiment(dir, platform, is_instance=True,
+updateInstanceConfiguration=False)` (read-only: what `elaunch --restart` on the same platform does) or the same read-only
+load without a platform (the database front-end); after a load the object obtained by it may instantiate the next
+iterations of the loop the way the controller does (`instantiate_dowhile_next_iteration(dw, k, True)`) before the
+directory is loaded again.  The first cases of a run are driven a second time at the end, in reverse order
+(`result-depends-on-earlier-cases`: no state may leak from one load of the process to another).
 
 Oracle (model independent): same nodes, same `configurationForNode` of every node, same environment of every
-node, same data references (text, method, producer or path, location), same edges before and after every reload;
-the parsed content of conf/flowir_instance.yaml does not change by any load+store cycle.
+node, same data references (text, method, producer or path, location), same edges after every load as the experiment
+object that drove the instance before it (the creator, or the loaded object that instantiated the last iteration);
+the parsed content of conf/flowir_instance.yaml is not changed by any load (+ store).
 Model: lean/St4sd/Model/Instance.lean through drv-c07 (`flatten` = FlowIRConcrete.instance(fill_in_all=False,
-is_primitive=True); op `history` = the sequence of loads, each naming the platform or not) compared with the
-parsed stored file after every cycle and with `configurationForNode` of the non-replicated nodes after every load;
+is_primitive=True); op `session` = `Instance.step`: iterations, loads naming the platform or not and updating the files or
+not, explicit stores) compared with the parsed stored file after every step and with `configurationForNode` of the
+non-replicated nodes after every load;
 lean/St4sd/Model/InstanceDir.lean (op `dir`: manifest deployment, folders implied by the directory listing,
 reading of references) compared with the real listing, `top_level_folders`, `Manifest.fromDirectory` and
 `FlowIR.expand_potential_component_reference`.
@@ -191,7 +198,7 @@ def gen_case(rng, tier="quick"):
                       "bindings": {"number": "stage0.src:output"}})
         comps.append({"name": "report", "stage": 2, "command": {"executable": "echo", "arguments": "stage1.add:output"},
                       "references": ["stage1.add:output"]})
-        iterations = rng.choice([0, 1, 2, 3]) if tier == "quick" else rng.choice([0, 1, 2, 3, 3, 5])
+        iterations = rng.choice([0, 1, 1, 2, 3]) if tier == "quick" else rng.choice([0, 1, 1, 2, 3, 3, 5])
     rng.shuffle(comps)
     uservars = []
     for _ in range(rng.choice([0, 0, 1, 1, 2])):
@@ -224,18 +231,36 @@ def gen_case(rng, tier="quick"):
     add_environments(rng, case)
     add_storage(rng, case)
     add_list_options(rng, case)
-    # how each load names the platform: "same" = experimentFromInstance(dir, platform=<the selected one>),
-    # "none" = experimentFromInstance(dir) (what ewrap/etest/ememo/einspect do)
+    # the history after the creation: loads (how each names the platform and whether it may update the instance files,
+    # see case_steps) and, for packages with a loop, further iterations instantiated by the object loaded last
     cycles = rng.choice([1, 1, 2, 3])
     style = rng.random()
-    if style < 0.35:
-        reloads = ["same"] * cycles
-    elif style < 0.75:
-        reloads = ["none"] * cycles
+    if style < 0.22:
+        hows = ["same"] * cycles
+    elif style < 0.47:
+        hows = ["none"] * cycles
+    elif style < 0.65:
+        hows = ["restart"] * cycles
     else:
-        reloads = [rng.choice(["same", "none"]) for _ in range(cycles)]
-    case["cycles"] = cycles
-    case["reloads"] = reloads
+        hows = [rng.choice(["same", "none", "restart", "restart", "inspect"]) for _ in range(cycles)]
+    budget = (3 if tier == "quick" else 5) - iterations
+    history = []
+    for how in hows:
+        history.append({"op": "load", "how": how})
+        # the controller of a restart keeps looping; the platform-less loads are the (read-only or not) tools
+        if dowhile and budget > 0 and (how in NAMING or platform == "default") and rng.random() < 0.6:
+            k = min(budget, rng.choice([1, 1, 2]))
+            history += [{"op": "iterate"}] * k
+            budget -= k
+    if history[-1]["op"] == "iterate":
+        history.append({"op": "load", "how": rng.choice(["same", "restart", "restart", "none", "inspect"])})
+    hows = [st["how"] for st in history if st["op"] == "load"]
+    case["cycles"] = len(hows)
+    case["reloads"] = hows
+    case["history"] = history
+    # the creating experiment stores when it is created and after every iteration; the harness stores once more
+    # explicitly after a patch (the known finding needs it) and otherwise only sometimes
+    case["explicit_store"] = bool(patches) or rng.random() < 0.4
     return case
 
 
@@ -578,8 +603,59 @@ def build_package(case, tmp):
     return location, manifest, inputs
 
 
+UPDATING = ("same", "none")          # loads that may update the instance files (experimentFromInstance)
+NAMING = ("same", "restart")         # loads that name the platform of the instance
+
+
+def case_steps(case):
+    """the history after the creation of the instance: `{"op": "load", "how": h}` with h = same
+    (experimentFromInstance(dir, platform)), none (experimentFromInstance(dir): ewrap/etest/ememo/einspect), restart
+    (Experiment(dir, platform, is_instance=True, updateInstanceConfiguration=False): `elaunch --restart` on the same
+    platform) or inspect (the same read-only load without a platform: the database front-end), and `{"op": "iterate"}`
+    (the object obtained last instantiates the next DoWhile iteration the way the controller does)"""
+    if case.get("history") is not None:
+        return case["history"]
+    reloads = case.get("reloads") or ["same"] * case["cycles"]
+    return [{"op": "load", "how": r} for r in reloads]
+
+
+def load_instance(inst, platform, how):
+    import experiment.model.data as D
+    import experiment.model.storage as S
+    if how == "same":
+        return D.Experiment.experimentFromInstance(inst, platform=platform)
+    if how == "none":
+        return D.Experiment.experimentFromInstance(inst)
+    if how == "restart":
+        # scripts/elaunch.py --restart when the platform is the one the instance already uses
+        d = S.ExperimentInstanceDirectory(inst, ignoreExisting=True)
+        return D.Experiment(d, platform=platform, is_instance=True, updateInstanceConfiguration=False)
+    if how == "inspect":
+        # experiment.service.db: addExperimentAtLocation(location) / the read-only tools
+        d = S.ExperimentInstanceDirectory(inst)
+        return D.Experiment(d, platform=None, is_instance=True, updateInstanceConfiguration=False)
+    raise ValueError(how)
+
+
+def unrep_components(exp):
+    return {(int(c.get("stage", 0)), c["name"]): c for c in exp.configuration._unreplicated.raw().get("components") or []}
+
+
+def next_iteration(exp, number):
+    """what Controller does when the condition of a DoWhile asks for another iteration; returns the raw components
+    that were added to the unreplicated description"""
+    import copy
+    import experiment.model.frontends.flowir as F
+    g = exp.experimentGraph
+    dw = list(g._documents[F.FlowIR.LabelDoWhile].values())[0]["document"]
+    had = set(unrep_components(exp))
+    g.instantiate_dowhile_next_iteration(dw, number, True)
+    now = unrep_components(exp)
+    return [copy.deepcopy(now[k]) for k in now if k not in had]
+
+
 def run_impl(case, tmp):
-    """returns dict(status, before, afters[], stored[], unrep_raw, error)"""
+    """returns dict(status, before, refs[], loads[], stored[], new_comps{}, unrep_raw, error)"""
     _quiet()
     import yaml
     import experiment.model.data as D
@@ -593,9 +669,8 @@ def run_impl(case, tmp):
             yaml.safe_dump(uv, fh)
         vfiles.append(p)
     platform = case["platform"]
-    reloads = case.get("reloads") or ["same"] * case["cycles"]
+    steps = case_steps(case)
     cwd = os.getcwd()
-    shadows = []
     try:
         try:
             location, manifest, inputs = build_package(case, tmp)
@@ -614,37 +689,57 @@ def run_impl(case, tmp):
             out["appdeps_platform"] = list(g._concrete.get_application_dependencies())
         except Exception:  # noqa
             out["appdeps_platform"] = []
-        if case["iterations"]:
-            dw = list(g._documents[F.FlowIR.LabelDoWhile].values())[0]["document"]
-            for i in range(1, case["iterations"] + 1):
-                g.instantiate_dowhile_next_iteration(dw, i, True)
+        iteration = 0
+        for _ in range(case["iterations"]):
+            iteration += 1
+            next_iteration(exp, iteration)
         for p in case["patches"]:
             g.setOptionForNode(p["node"], p["key"], p["value"])
-        exp.configuration.store_unreplicated_flowir_to_disk()
+        if case.get("explicit_store", True):
+            exp.configuration.store_unreplicated_flowir_to_disk()
         out["unrep_raw"] = exp.configuration._unreplicated.raw()
-        out["before"] = snapshot(exp, inst, rebuilt_edges=case["iterations"] > 0)
+        out["before"] = snapshot(exp, inst, rebuilt_edges=iteration > 0)
+        out["refs"] = [out["before"]]
         fpath = os.path.join(inst, "conf", "flowir_instance.yaml")
         out["stored"] = [open(fpath, "rb").read()]
         out["listing"] = [listing_of(inst)]
-        out["afters"] = []
-        for how in reloads:
+        out["loads"] = []
+        out["new_comps"] = {}
+        cur = exp
+        for k, st in enumerate(steps):
+            if st["op"] == "iterate":
+                iteration += 1
+                try:
+                    out["new_comps"][k] = next_iteration(cur, iteration)
+                except Exception as exc:  # noqa
+                    # (the object that created the instance iterated in the prefix, outside this loop, or is `exp`)
+                    out["status"] = "iterate-raises" if cur is not exp else "package-rejected"
+                    out["error"] = "%s: %s" % (type(exc).__name__, str(exc)[:300])
+                    out["failed_step"] = k
+                    return out
+                out["refs"].append(snapshot(cur, inst, rebuilt_edges=True))
+                out["stored"].append(open(fpath, "rb").read())
+                continue
+            how = st["how"]
             out["listing"].append(listing_of(inst))
             try:
                 out["implied"] = sorted(F.Manifest.fromDirectory(inst).top_level_folders)
             except Exception as exc:  # noqa
                 out["implied"] = "error:" + type(exc).__name__
             try:
-                exp2 = D.Experiment.experimentFromInstance(inst, platform=platform if how == "same" else None)
+                exp2 = load_instance(inst, platform, how)
                 exp2.validateExperiment(checkExecutables=False)
             except Exception as exc:  # noqa
                 out["status"] = "reload-raises"
                 out["error"] = "%s: %s" % (type(exc).__name__, str(exc)[:300])
-                out["failed_cycle"] = len(out["afters"]) + 1
+                out["failed_step"] = k
                 return out
-            # the reload itself re-stores (updateInstanceConfiguration=True); store explicitly as well
-            exp2.configuration.store_unreplicated_flowir_to_disk()
-            out["afters"].append(snapshot(exp2, inst))
+            if how in UPDATING:
+                # the reload itself re-stores (updateInstanceConfiguration=True); store explicitly as well
+                exp2.configuration.store_unreplicated_flowir_to_disk()
+            out["loads"].append({"step": k, "how": how, "after": snapshot(exp2, inst), "ref": len(out["refs"]) - 1})
             out["stored"].append(open(fpath, "rb").read())
+            cur = exp2
         return out
     finally:
         os.chdir(cwd)
@@ -842,7 +937,7 @@ def classify_platformless_restore(what, case, detail):
                 return False
         return not detail.get("override_left_after")
     if what == "reload-raises":
-        return (detail.get("reload") == "same" and "none" in (detail.get("earlier_reloads") or [])
+        return (detail.get("reload") in NAMING and "none" in (detail.get("earlier_reloads") or [])
                 and 'Unknown platform "%s"' % plat in str(detail.get("error")))
     return False
 
@@ -950,28 +1045,38 @@ def list_option_tags(case):
     return tags
 
 
-def check_case(ctx, case, tmp_root):
+def check_case(ctx, case, tmp_root, record=None):
     import yaml
     tmp = tempfile.mkdtemp(prefix="case-", dir=tmp_root)
     try:
         out = run_impl(case, tmp)
     finally:
         shutil.rmtree(tmp, ignore_errors=True)
+    if record is not None:
+        record.append(digest(out))
     comps = case["main"]["components"]
-    reloads = case.get("reloads") or ["same"] * case["cycles"]
+    steps = case_steps(case)
+    hows = [st["how"] for st in steps if st["op"] == "load"]
+    later_iterations = sum(1 for st in steps if st["op"] == "iterate")
     nondefault = case["platform"] != "default"
     tags = ["platform:" + ("default" if case["platform"] == "default" else "non-default"),
-            "iterations:%d" % case["iterations"], "cycles:%d" % case["cycles"],
+            "iterations:%d" % case["iterations"], "cycles:%d" % len(hows),
+            "iterations-after-a-load:%d" % later_iterations,
             "uservar-files:%d" % len(case["uservars"]), "impl:" + out["status"],
             "loop" if case["dowhile"] else "no-loop",
             "patched" if case["patches"] else "unpatched",
             "replication" if any((c.get("workflowAttributes") or {}).get("replicate") for c in comps) else "no-replication",
             "override" if any("override" in c for c in comps) else "no-override",
             "layout:" + case.get("layout", "dir"),
-            "reloads:" + ("all-same" if "none" not in reloads else ("all-none" if "same" not in reloads else "mixed")),
+            "reloads:" + ("all-" + hows[0] if len(set(hows)) == 1 else "mixed"),
+            "explicit-store-after-creation" if case.get("explicit_store", True) else "no-explicit-store-after-creation",
             "environments" if case["main"].get("environments") else "no-environments"]
+    tags += sorted("load:" + h for h in set(hows))
+    for a, b in zip(steps, steps[1:]):
+        if a["op"] == "load" and b["op"] == "iterate":
+            tags.append("iterate-after-load:" + a["how"])
     tags += sorted(list_option_tags(case))
-    if nondefault and "none" in reloads:
+    if nondefault and ("none" in hows or "inspect" in hows):
         tags.append("platformless-reload-of-non-default-platform-instance")
         if any("variables" in (o or {}) for c in comps for o in (c.get("override") or {}).values()):
             tags.append("platformless-reload-with-override-variables")
@@ -992,38 +1097,51 @@ def check_case(ctx, case, tmp_root):
     if out["status"] == "package-rejected":
         return  # the generated package is not a valid experiment: nothing to reload
     before = out["before"]
+    loads = out["loads"]
     # ---- oracle ------------------------------------------------------------------------
+    if out["status"] == "iterate-raises":
+        # the object obtained by the last load cannot go on with the loop the experiment it replaces was running
+        k = out["failed_step"]
+        ctx.fail("loaded-experiment-cannot-instantiate-next-iteration", case,
+                 {"error": out["error"], "step": k, "iteration": case["iterations"] + sum(
+                     1 for st in steps[:k + 1] if st["op"] == "iterate"),
+                  "loaded_by": [st["how"] for st in steps[:k] if st["op"] == "load"][-1:]})
     if out["status"] == "reload-raises":
-        k = out.get("failed_cycle", 1)
-        ctx.fail("reload-raises", case, {"error": out["error"], "cycle": k, "reload": reloads[k - 1],
-                                         "earlier_reloads": reloads[:k - 1]})
-    for i, after in enumerate(out["afters"]):
-        if sorted(after["nodes"]) != sorted(before["nodes"]):
+        k = out["failed_step"]
+        nth = sum(1 for st in steps[:k + 1] if st["op"] == "load")
+        ctx.fail("reload-raises", case, {"error": out["error"], "cycle": nth, "step": k, "reload": steps[k]["how"],
+                                         "earlier_reloads": [st["how"] for st in steps[:k] if st["op"] == "load"]})
+    for i, ld in enumerate(loads):
+        after, ref, how = ld["after"], out["refs"][ld["ref"]], ld["how"]
+        where = {"cycle": i + 1, "step": ld["step"], "reload": how,
+                 "iterations_since_creation": sum(1 for st in steps[:ld["step"]] if st["op"] == "iterate")}
+        if sorted(after["nodes"]) != sorted(ref["nodes"]):
             ctx.fail("component-set-differs-after-reload", case,
-                     {"cycle": i + 1, "reload": reloads[i],
-                      "only_before": sorted(set(before["nodes"]) - set(after["nodes"])),
-                      "only_after": sorted(set(after["nodes"]) - set(before["nodes"]))})
+                     dict(where, only_before=sorted(set(ref["nodes"]) - set(after["nodes"])),
+                          only_after=sorted(set(after["nodes"]) - set(ref["nodes"]))))
             continue
         # the raw `override` block that configurationForNode echoes is description, not resolved configuration:
         # it is compared as long as every load named the platform; a platform-less load of an instance of another
         # platform stores for `default`, which drops the block (reported through the stored description below)
-        strict = not (nondefault and "none" in reloads[:i + 1])
+        # (a read-only platform-less load does not store, but the object itself is loaded for `default` and echoes
+        # no block either)
+        strict = not (nondefault and ("none" in hows[:i + 1] or how == "inspect"))
         diffs = {}
         rdiffs = {}
         ediffs = {}
-        for n in before["nodes"]:
-            cb, ca = before["nodes"][n]["conf"], after["nodes"][n]["conf"]
+        for n in ref["nodes"]:
+            cb, ca = ref["nodes"][n]["conf"], after["nodes"][n]["conf"]
             if not strict:
                 cb = {k: v for k, v in cb.items() if k != "override"}
                 ca = {k: v for k, v in ca.items() if k != "override"}
             if cb != ca:
                 diffs[n] = diff_paths(cb, ca)
-            if before["nodes"][n]["refs"] != after["nodes"][n]["refs"]:
-                rdiffs[n] = [before["nodes"][n]["refs"], after["nodes"][n]["refs"]]
-            if before["nodes"][n]["env"] != after["nodes"][n]["env"]:
-                ediffs[n] = {p: [flat_paths(before["nodes"][n]["env"]).get(p, "<absent>"),
+            if ref["nodes"][n]["refs"] != after["nodes"][n]["refs"]:
+                rdiffs[n] = [ref["nodes"][n]["refs"], after["nodes"][n]["refs"]]
+            if ref["nodes"][n]["env"] != after["nodes"][n]["env"]:
+                ediffs[n] = {p: [flat_paths(ref["nodes"][n]["env"]).get(p, "<absent>"),
                                  flat_paths(after["nodes"][n]["env"]).get(p, "<absent>")]
-                             for p in diff_paths(before["nodes"][n]["env"], after["nodes"][n]["env"])[:6]}
+                             for p in diff_paths(ref["nodes"][n]["env"], after["nodes"][n]["env"])[:6]}
         if diffs and classify_patch_lost("configuration-differs-after-reload", case, {"diffs": diffs}) \
                 and ctx.extra.get("patch_lost_recorded", 0) >= 60:
             # keep the failure list (capped at 200 by the context) free for anything else
@@ -1032,41 +1150,45 @@ def check_case(ctx, case, tmp_root):
             if classify_patch_lost("configuration-differs-after-reload", case, {"diffs": diffs}):
                 ctx.extra["patch_lost_recorded"] = ctx.extra.get("patch_lost_recorded", 0) + 1
             n0 = sorted(diffs)[0]
-            bconf, aconf = before["nodes"][n0]["conf"], after["nodes"][n0]["conf"]
+            bconf, aconf = ref["nodes"][n0]["conf"], after["nodes"][n0]["conf"]
             ctx.fail("configuration-differs-after-reload", case,
-                     {"cycle": i + 1, "reload": reloads[i], "diffs": diffs,
-                      "example": {"node": n0, "paths": {p: [flat_paths(bconf).get(p, "<absent>"),
-                                                            flat_paths(aconf).get(p, "<absent>")]
-                                                        for p in diffs[n0][:6]}}})
+                     dict(where, diffs=diffs,
+                          example={"node": n0, "paths": {p: [flat_paths(bconf).get(p, "<absent>"),
+                                                             flat_paths(aconf).get(p, "<absent>")]
+                                                         for p in diffs[n0][:6]}}))
         if ediffs and not case["patches"]:
-            ctx.fail("environment-differs-after-reload", case, {"cycle": i + 1, "reload": reloads[i], "diffs": ediffs})
+            ctx.fail("environment-differs-after-reload", case, dict(where, diffs=ediffs))
         if rdiffs:
-            ctx.fail("data-references-differ-after-reload", case, {"cycle": i + 1, "reload": reloads[i], "diffs": rdiffs})
-        if before["edges"] != after["edges"]:
+            ctx.fail("data-references-differ-after-reload", case, dict(where, diffs=rdiffs))
+        if ref["edges"] != after["edges"]:
             ctx.fail("dataflow-edges-differ-after-reload", case,
-                     {"cycle": i + 1, "reload": reloads[i],
-                      "only_before": [e for e in before["edges"] if e not in after["edges"]][:10],
-                      "only_after": [e for e in after["edges"] if e not in before["edges"]][:10]})
-        if before["live_edges"] != before["edges"]:
+                     dict(where, only_before=[e for e in ref["edges"] if e not in after["edges"]][:10],
+                          only_after=[e for e in after["edges"] if e not in ref["edges"]][:10]))
+        if ref["live_edges"] != ref["edges"]:
             ctx.tag("live-graph-keeps-edges-of-earlier-iterations")
     parsed = [canon_flowir(yaml.safe_load(b)) for b in out["stored"]]
+    nload = 0
     for i in range(1, len(parsed)):
-        # every load + store cycle is compared with the description it loaded
+        st = steps[i - 1]
+        if st["op"] != "load":
+            continue        # an iteration legitimately changes the stored description
+        nload += 1
+        # every load (+ store) is compared with the description it loaded
         if parsed[i] != parsed[i - 1]:
             det = stored_change_detail(parsed[i - 1], parsed[i])
-            det.update({"cycle": i, "reload": reloads[i - 1]})
+            det.update({"cycle": nload, "step": i - 1, "reload": st["how"]})
             ctx.fail("stored-description-changed-by-load-and-store", case, det)
         else:
             ctx.tag("stored-bytes-identical" if out["stored"][i] == out["stored"][i - 1]
                     else "stored-bytes-differ-only-in-order")
-    if out["status"] == "reload-raises":
+    if out["status"] in ("reload-raises", "iterate-raises"):
         return
     # user variables: the last file that defines a name wins and is visible (through the stage scope) everywhere
-    if case["uservars"] and out["afters"] and not case["patches"]:
+    if case["uservars"] and loads and not case["patches"]:
         final = {}
         for uv in case["uservars"]:
             final.update(uv.get("global") or {})
-        after = out["afters"][-1]
+        after = loads[-1]["after"]
         for n, nd in after["nodes"].items():
             vs = (nd["conf"] or {}).get("variables") or {}
             st = nd["conf"].get("stage")
@@ -1087,12 +1209,12 @@ def check_case(ctx, case, tmp_root):
                 if k not in vs or str(vs[k]) != str(v):
                     ctx.fail("user-variable-lost-after-reload", case, {"node": n, "variable": k, "expected": v,
                                                                          "got": vs.get(k, "<absent>")})
-    # loop instances
-    if case["iterations"] and out["afters"]:
-        want = {n for n in before["nodes"] if "#" in n}
-        got = {n for n in out["afters"][-1]["nodes"] if "#" in n}
+    # loop instances: everything instantiated so far, by whichever object, is in the experiment loaded last
+    if (case["iterations"] or later_iterations) and loads:
+        want = {n for n in out["refs"][-1]["nodes"] if "#" in n}
+        got = {n for n in loads[-1]["after"]["nodes"] if "#" in n}
         ctx.tag("loop-instances:%d" % len(want))
-        if want != got:
+        if want != got and steps[-1]["op"] == "load":
             ctx.fail("loop-instances-differ-after-reload", case, {"before": sorted(want), "after": sorted(got)})
     # ---- model ---------------------------------------------------------------------------
     if ctx.driver is None:
@@ -1109,11 +1231,24 @@ def check_case(ctx, case, tmp_root):
     stored_docs = [doc_of(names, yaml.safe_load(b)) for b in out["stored"]]
     pid = names.id(case["platform"])
     req = {"op": "cycle", "N": FUEL, "P": pid, "doc": doc, "patches": mpatches}
-    hreq = {"op": "history", "N": FUEL, "P": pid, "doc": doc, "reloads": [pid if r == "same" else 0 for r in reloads]}
+    # the session: one model step per real step (+ the explicit store the harness does after an updating load)
+    msteps, owner = [], []
+    for k, st in enumerate(steps):
+        if st["op"] == "iterate":
+            msteps.append({"iterate": [comp_of(names, c) for c in out["new_comps"].get(k, [])]})
+            owner.append(k)
+        else:
+            msteps.append({"load": pid if st["how"] in NAMING else 0, "update": st["how"] in UPDATING})
+            owner.append(k)
+            if st["how"] in UPDATING:
+                msteps.append({"store": True})
+                owner.append(k)
+    hreq = {"op": "session", "N": FUEL, "P": pid, "doc": doc, "steps": msteps}
     dreq = dir_request(names, case, out)
     m, h, d = ctx.model([req, hreq, dreq])
     ctx.tag("model:resolves" if m["resolves"] else "model:not-resolved")
     ctx.tag("model:resolvesFully" if h["resolvesFully"] else "model:not-resolvedFully")
+    ctx.tag("model:every-state-of-the-session-resolves" if h["allResolve"] else "model:some-state-not-resolved")
     light = case
     ctx.compare("stored flowir_instance.yaml == Instance.flatten(_unreplicated)", light,
                 dec_doc(names, m["stored"]), dec_doc(names, stored_docs[0]))
@@ -1124,26 +1259,57 @@ def check_case(ctx, case, tmp_root):
                     dec_resolved(names, m["after"]), dec_resolved(names, m["before"]))
         mv, iv = conf_views(dec_resolved(names, m["before"]), before)
         ctx.compare("configurationForNode (non-replica nodes) == Instance.resolveComp", light, mv, iv)
-        # the history of loads, each naming the platform or not
-        for i, cyc in enumerate(h["cycles"]):
-            real_ok = i < len(out["afters"])
-            ctx.compare("model: loadable(stored platforms, named platform) == the real load is accepted", light,
-                        cyc["loadable"], real_ok)
-            if not (cyc["loadable"] and real_ok):
+        # the session: iterations and loads, each load naming the platform or not, updating the files or not
+        last_of = {}
+        for j, k in enumerate(owner):
+            last_of[k] = j
+        nl = 0
+        iterated = False
+        for k, st in enumerate(steps):
+            j = last_of[k]
+            real_done = k + 1 < len(out["stored"])
+            if st["op"] == "iterate":
+                iterated = True
+                if j >= len(h["steps"]) or not real_done:
+                    break
+                ctx.compare("stored flowir_instance.yaml after an iteration == model session (store of the object "
+                            "that iterated)", light, dec_doc(names, h["steps"][j]["stored"]),
+                            dec_doc(names, stored_docs[k + 1]))
+                continue
+            jl = j - 1 if st["how"] in UPDATING else j
+            if jl >= len(h["steps"]):
                 break
-            ctx.compare("stored flowir_instance.yaml after cycle k == model history (store for the named platform)",
-                        light, dec_doc(names, cyc["stored"]), dec_doc(names, stored_docs[i + 1]))
-            mv, iv = conf_views(dec_resolved(names, cyc["after"]), out["afters"][i])
-            ctx.compare("configurationForNode after cycle k (non-replica nodes) == model history", light, mv, iv)
-            if m["resolves"] and h["resolvesFully"]:
+            cyc = h["steps"][jl]
+            ctx.compare("model: loadable(stored platforms, named platform) == the real load is accepted", light,
+                        cyc["loadable"], real_done)
+            if not (cyc["loadable"] and real_done):
+                break
+            ctx.compare("stored flowir_instance.yaml after cycle k == model session (store for the named platform; "
+                        "unchanged by a read-only load)", light,
+                        dec_doc(names, h["steps"][j]["stored"]), dec_doc(names, stored_docs[k + 1]))
+            mv, iv = conf_views(dec_resolved(names, cyc["after"]), loads[nl]["after"])
+            ctx.compare("configurationForNode after cycle k (non-replica nodes) == model session", light, mv, iv)
+            if m["resolves"] and h["resolvesFully"] and not iterated:
                 ctx.compare("model: runningConfig after every load of the history == runningConfig E", light,
                             dec_resolved(names, cyc["after"]), dec_resolved(names, h["before"]))
-            if m["resolves"] and nondefault and "none" in reloads[:i + 1]:
+            if m["resolves"] and nondefault and "none" in hows[:nl + 1] and not iterated:
                 ctx.compare("model: stored after a platform-less cycle == dropOvr(store E)", light,
-                            dec_doc(names, cyc["stored"]), dec_doc(names, h["dropOvr"]))
+                            dec_doc(names, h["steps"][j]["stored"]), dec_doc(names, h["dropOvr"]))
+            nl += 1
     # the instance directory
     if d is not None:
         check_dir(ctx, case, out, names, d)
+
+
+def digest(out):
+    """what a second run of the same case later in the process must reproduce"""
+    import yaml
+    if out["status"] == "package-rejected":
+        return {"status": out["status"]}
+    return json.loads(json.dumps({
+        "status": out["status"], "before": out.get("before"),
+        "loads": [[ld["how"], ld["after"]] for ld in out.get("loads") or []],
+        "stored": [canon_flowir(yaml.safe_load(b)) for b in out.get("stored") or []]}, sort_keys=True, default=str))
 
 
 def dir_request(names, case, out):
@@ -1179,9 +1345,9 @@ def check_dir(ctx, case, out, names, d):
                         {names.rev[n]: real.get(names.rev[n], "<absent>") for n, _k in d["deployed"]})
     ctx.compare("top_level_folders of the creating experiment == manifest keys + implied folders", case,
                 un(d["folders_create_own"]), out["before"]["folders"])
-    if out["afters"]:
+    if out["loads"]:
         ctx.compare("top_level_folders of the reloaded experiment == InstanceDir.implied(listing)", case,
-                    un(d["implied_reload"]), out["afters"][-1]["folders"])
+                    un(d["implied_reload"]), out["loads"][-1]["after"]["folders"])
     if isinstance(out.get("implied"), list):
         ctx.compare("Manifest.fromDirectory(instance).top_level_folders == InstanceDir.implied(listing)", case,
                     un(d["implied_reload"]), out["implied"])
@@ -1190,7 +1356,7 @@ def check_dir(ctx, case, out, names, d):
         list(F.FlowIR.SpecialFolders)
     rr = raw_refs(case)
     for which, folders in (("direct_create", out["before"]["folders"]),
-                           ("direct_reload", out["afters"][-1]["folders"] if out["afters"] else None)):
+                           ("direct_reload", out["loads"][-1]["after"]["folders"] if out["loads"] else None)):
         if folders is None:
             continue
         model_view, impl_view = {}, {}
@@ -1254,6 +1420,33 @@ CORPUS = [
                  {"target": "shared", "method": "copy", "files": ["a.dat"]},
                  {"target": "shared/deep", "method": "link", "files": ["n.txt"]}],
      "appdeps": ["Solver"], "inputs": ["in0.csv"], "datafiles": ["d0.txt"], "data_method": "link"},
+    # an instance of platform hpc with a loop: iteration 1 by the creating experiment, then loaded the way
+    # `elaunch --restart` loads it (read-only), the restarted experiment instantiates iterations 2 and 3, a second
+    # restart instantiates iteration 4, then the directory is loaded by a tool (load + store)
+    {"main": {"platforms": ["default", "hpc"],
+              "variables": {"default": {"global": {"v1": "1", "v3": "t-%(v1)s"}, "stages": {0: {"v2": "s0"}}},
+                            "hpc": {"global": {"v1": "64"}, "stages": {}}},
+              "components": [{"name": "src", "stage": 0, "command": {"executable": "echo", "arguments": "%(v2)s %(v3)s"}},
+                             {"name": "gen", "stage": 0, "command": {"executable": "echo", "arguments": "%(replica)s src:ref"},
+                              "references": ["src:ref"], "workflowAttributes": {"replicate": 2}},
+                             {"name": "loop", "stage": 1, "$import": "dowhile.yaml",
+                              "bindings": {"number": "stage0.src:output"}},
+                             {"name": "report", "stage": 2,
+                              "command": {"executable": "echo", "arguments": "stage1.add:output stage0.gen:ref"},
+                              "references": ["stage1.add:output", "stage0.gen:ref"],
+                              "workflowAttributes": {"aggregate": True}}]},
+     "dowhile": {"type": "DoWhile", "inputBindings": {"number": {"type": "output"}},
+                 "loopBindings": {"number": "stop:output"}, "condition": "stop:output",
+                 "components": [{"name": "add", "command": {"executable": "echo",
+                                                            "arguments": "number:output %(loopIteration)s %(v3)s"},
+                                 "references": ["number:output"], "variables": {"v5": "loopvar"}},
+                                {"name": "stop", "command": {"executable": "echo", "arguments": "add:output"},
+                                 "references": ["add:output"]}]},
+     "platform": "hpc", "uservars": [{"global": {"v1": "7"}}], "iterations": 1, "patches": [], "explicit_store": False,
+     "cycles": 3, "reloads": ["restart", "restart", "same"],
+     "history": [{"op": "load", "how": "restart"}, {"op": "iterate"}, {"op": "iterate"},
+                 {"op": "load", "how": "restart"}, {"op": "iterate"}, {"op": "load", "how": "same"}],
+     "layout": "dir", "folders": [], "appdeps": [], "inputs": [], "datafiles": []},
 ]
 
 
@@ -1265,7 +1458,11 @@ def run(ctx):
                 "overrides, replicate/aggregate, 0-2 user variable files, optional DoWhile document advanced 0-3 "
                 "(thorough: up to 5) iterations, optional setOptionForNode patch; package directory or FlowIR file + "
                 "manifest with copied/linked/nested folders, data/ and input/ files, application dependencies, and "
-                "references into them) + selected platform + 1-3 load+store cycles each naming the platform or not; "
+                "references into them) + selected platform + a history of 1-4 loads (experimentFromInstance naming the "
+                "platform / not naming it, the read-only load of `elaunch --restart`, the read-only platform-less load of "
+                "the database front-end) with, for packages with a loop, 0-2 further iterations instantiated after a load "
+                "by the object that load returned (the creating experiment stores explicitly once more in 40% of the cases "
+                "only); the first 6 (thorough 25) cases and the corpus are repeated at the end of the run in reverse order; "
                 "non-trivial = the real Experiment loads and has >= 2 components; distinct by canonical JSON of the case")
     ctx.assumptions = [
         "variable values at global/stage scope reference only variables visible at that scope (otherwise "
@@ -1280,6 +1477,9 @@ def run(ctx):
         "through the stored description: known finding C07-platformless-restore-forgets-platform)",
         "FLOW_RUN_ID (a fresh uuid per Experiment object) is removed from the compared environments",
         "the instance directory only grows between creation and reload (nothing is removed or replaced)",
+        "iterations after a load are instantiated only by objects that named the platform of the instance (same / "
+        "restart loads; any load when the platform is `default`): the platform-less loads are the tools, which do not run loops",
+        "no fault is injected into a store (C07 does not quantify over faults: atomicity of the re-store is C14's subject)",
     ]
     ctx.trusted.append("C07: PyYAML dump/load is the identity on the generated values (str, int, bool, list, dict); "
                        "FlowIR.apply_replicate is a function of the flattened description (not modelled)")
@@ -1287,16 +1487,37 @@ def run(ctx):
     quick = ctx.tier == "quick"
     n = 150 if quick else 1000
     root = tempfile.mkdtemp(prefix="c07-")
+    again = []      # (case, digest of its first run): repeated at the end, in reverse order, after all other cases
     try:
         for case in CORPUS:
-            check_case(ctx, case, root)
+            rec = []
+            check_case(ctx, case, root, record=rec)
+            again.append((case, rec[0]))
         cdir = os.path.join(os.path.dirname(os.path.dirname(os.path.abspath(__file__))), "corpus", "C07")
         if os.path.isdir(cdir):
             for fn in sorted(os.listdir(cdir)):
                 if fn.endswith(".json"):
                     check_case(ctx, fix_keys(json.load(open(os.path.join(cdir, fn)))), root)
-        for _ in range(n):
-            check_case(ctx, gen_case(ctx.rng, ctx.tier), root)
+        for i in range(n):
+            case = gen_case(ctx.rng, ctx.tier)
+            rec = [] if i < (6 if quick else 25) else None
+            check_case(ctx, case, root, record=rec)
+            if rec:
+                again.append((case, rec[0]))
+        # family: state shared between independent loads in one process (module-level caches, class attributes):
+        # the generated packages reuse the same component, variable, folder and platform names with different roles;
+        # the first cases are driven again after all the others, in reverse order, and must give the same answers
+        for case, first in reversed(again):
+            tmp = tempfile.mkdtemp(prefix="again-", dir=root)
+            try:
+                second = digest(run_impl(case, tmp))
+            finally:
+                shutil.rmtree(tmp, ignore_errors=True)
+            ctx.tag("repeated-later-in-the-process")
+            if second != first:
+                ctx.fail("result-depends-on-earlier-cases", case,
+                         {"differs": sorted(k for k in set(first) | set(second) if first.get(k) != second.get(k)),
+                          "status": [first.get("status"), second.get("status")]})
     finally:
         shutil.rmtree(root, ignore_errors=True)
 
